@@ -219,9 +219,7 @@ def _CheckMultiSig(opcode, script, stack, txTo, inIdx, flags, err_raiser, nOpCou
         if success:
             stack.append(b"\x01")
         else:
-            # FIXME: this is incorrect, but not caught by existing
-            # test cases
-            stack.append(b"\x00")
+            stack.append(b"")
 
 
 # OP_2MUL and OP_2DIV are *not* included in this list as they are disabled
@@ -507,9 +505,7 @@ def _EvalScript(stack, scriptIn, txTo, inIdx, flags=()):
                         if sop != OP_CHECKSIGVERIFY:
                             stack.append(b"\x01")
                     else:
-                        # FIXME: this is incorrect, but not caught by existing
-                        # test cases
-                        stack.append(b"\x00")
+                        stack.append(b"")
 
             elif sop == OP_CODESEPARATOR:
                 pbegincodehash = sop_pc
@@ -686,9 +682,7 @@ def _EvalScript(stack, scriptIn, txTo, inIdx, flags=()):
                 if v:
                     stack.append(b"\x01")
                 else:
-                    # FIXME: this is incorrect, but not caught by existing
-                    # test cases
-                    stack.append(b"\x00")
+                    stack.append(b"")
 
             else:
                 err_raiser(EvalScriptError, 'unsupported opcode 0x%x' % sop)
